@@ -16,7 +16,9 @@ type pipeCase struct {
 	Reqs           [][]*resp.Bin `json:"reqs"`                // a null argument stands for a null bulk
 	Sizes          []int         `json:"sizes"`               // chunk sizes of the request stream
 	ErrCalls       []int         `json:"err_calls,omitempty"` // handler calls (by sequence number) that return an error
+	ErrKinds       []string      `json:"err_kinds,omitempty"` // parallel to ErrCalls: "" (plain) | a doubles.Result.ErrKind | both (a message AND an error)
 	NilCalls       []int         `json:"nil_calls,omitempty"` // handler calls that return neither a message nor an error
+	NilKinds       []string      `json:"nil_kinds,omitempty"` // parallel to NilCalls: "" (nothing at all) | a doubles.Result.Odd (a message that cannot be serialized)
 	GetMode        string        `json:"get_mode,omitempty"`
 	GetValue       string        `json:"get_value,omitempty"`
 	Password       string        `json:"password,omitempty"`         // C20: server requires this password
@@ -92,20 +94,33 @@ func (c pipeCase) cmdName(i int) string {
 
 func (c pipeCase) resultFn() func(cl *doubles.Call) doubles.Result {
 	errSet := map[int]bool{}
-	for _, s := range c.ErrCalls {
+	errKind := map[int]string{}
+	for i, s := range c.ErrCalls {
 		errSet[s] = true
+		if i < len(c.ErrKinds) {
+			errKind[s] = c.ErrKinds[i]
+		}
 	}
 	nilSet := map[int]bool{}
-	for _, s := range c.NilCalls {
+	nilKind := map[int]string{}
+	for i, s := range c.NilCalls {
 		nilSet[s] = true
+		if i < len(c.NilKinds) {
+			nilKind[s] = c.NilKinds[i]
+		}
 	}
 	base := getModeResult(c.GetMode, c.GetValue)
 	return func(cl *doubles.Call) doubles.Result {
 		if nilSet[cl.Seq] {
-			return doubles.Result{Nil: true}
+			return doubles.Result{Nil: true, Odd: nilKind[cl.Seq]}
 		}
 		if errSet[cl.Seq] {
-			return doubles.Result{Err: "ERR scripted handler error"}
+			if errKind[cl.Seq] == "both" {
+				r := base(cl)
+				r.Err = "ERR scripted handler error"
+				return r
+			}
+			return doubles.Result{Err: "ERR scripted handler error", ErrKind: errKind[cl.Seq]}
 		}
 		return base(cl)
 	}
@@ -225,12 +240,14 @@ func genPipeline(rt *rapid.T, avoid func(string) bool, maxReqs int, plain bool) 
 		k := rapid.IntRange(1, 3).Draw(rt, "nerr")
 		for j := 0; j < k; j++ {
 			c.ErrCalls = append(c.ErrCalls, rapid.IntRange(0, 2*n).Draw(rt, "errcall"))
+			c.ErrKinds = append(c.ErrKinds, rapid.SampledFrom([]string{"", "", "", "both", "eof", "unexpected-eof", "closed-pipe", "net-closed", "timeout", "wrapped-eof", "wrapped-timeout"}).Draw(rt, "errkind"))
 		}
 		labels["handler-error"] = true
 	}
 	if rapid.IntRange(0, 5).Draw(rt, "hnil") == 0 {
 		for j, k := 0, rapid.IntRange(1, 2).Draw(rt, "nnil"); j < k; j++ {
 			c.NilCalls = append(c.NilCalls, rapid.IntRange(0, 2*n).Draw(rt, "nilcall"))
+			c.NilKinds = append(c.NilKinds, rapid.SampledFrom([]string{"", "", "nil-array", "unknown-type", "nil-in-array", "nil-in-big-array", "nil-in-huge-array"}).Draw(rt, "nilkind"))
 		}
 		labels["handler-nil-result"] = true
 	}
